@@ -209,7 +209,13 @@ struct Encoding<LogicalBuffer<BufferType, SizeMemberType, IsUnbounded>,
 
     const SizeType size = size_bytes / sizeof(ValueType);
     value->size() = size;
-    return reader->Read(value->begin(), value->end());
+    status = reader->Read(value->begin(), value->end());
+    if (!status)
+      return status;
+    else if (!ValidateIntegralRange(value->begin(), value->end()))
+      return ErrorStatus::UnexpectedEncodingType;
+    else
+      return {};
   }
 };
 
